@@ -26,7 +26,8 @@ class Vocabulary:
     field_methods: {(field name, member name regex) -> effect}   e.g. ("mIdList", "insert")
     field_assign: {field name -> callable(rhs_node_text) -> effect}"""
 
-    def __init__(self, methods=(), field_methods=(), field_assign=None, opaque=(), field_any=None, functions=None):
+    def __init__(self, methods=(), field_methods=(), field_assign=None, opaque=(), field_any=None, functions=None, read_only=()):
+        self.read_only = set(read_only)  # effects that change no ghost state: a loop performing only these gets __LC_SLICE_RO (frame: nothing)
         self.field_any = field_any     # callable(field name, member name or "=") -> effect or None, for every data member
         self.functions = functions     # callable(function name) -> effect or None, for free/extern functions (e.g. libxml2)
         self.methods = [(re.compile(p), e) for p, e in methods]
@@ -201,7 +202,19 @@ class Slicer:
             heads = parts[:-1] if k != "DoStmt" else parts[1:]
             s = ""
             hs = "".join(self.emit_effects(h, d + 1) for h in heads)
-            s += I + "while (nondet_bool())\n" + I + "__LC_SLICE\n" + I + "{\n" + hs + self.stmt(body, d + 1) + I + "}\n"
+            lc = "__LC_SLICE"
+            if self.v.read_only and getattr(self, "trans", None) is not None:
+                out = []
+                self.effects_of_expr(n, out)
+                es = set()
+                for kind, name in out:
+                    if kind == "E":
+                        es.add(name)
+                    elif self.effectful is None or name in self.effectful:
+                        es |= self.trans.get(name, {"?"})
+                if es <= self.v.read_only:
+                    lc = "__LC_SLICE_RO"      # the loop performs only effects that change nothing
+            s += I + "while (nondet_bool())\n" + I + lc + "\n" + I + "{\n" + hs + self.stmt(body, d + 1) + I + "}\n"
             return hs.replace("    " * (d + 1), I, 1) * 0 + s
         if k == "SwitchStmt":
             cs = [c for c in inner if isinstance(c, dict)]
@@ -250,6 +263,9 @@ class Slicer:
                 self.effects_of_expr(b, out)
             direct[cn] = any(kind == "E" for kind, _ in out)
             calls[cn] = set(name for kind, name in out if kind == "S")
+            dset = getattr(self, "_dset", {})
+            dset[cn] = set(name for kind, name in out if kind == "E")
+            self._dset = dset
         eff = set(cn for cn, v in direct.items() if v)
         changed = True
         while changed:
@@ -259,6 +275,22 @@ class Slicer:
                     eff.add(cn)
                     changed = True
         self.effectful = eff
+        # transitive effect sets (for read-only loops)
+        self.trans = {cn: set(v) for cn, v in self._dset.items()}
+        for cn in self.v.opaque:
+            self.trans[cn] = {cn[2:] if cn.startswith("S_") else cn}
+        changed = True
+        while changed:
+            changed = False
+            for cn in self.defs:
+                if cn in self.v.opaque:
+                    continue
+                add = set()
+                for c in calls[cn]:
+                    add |= self.trans.get(c, set())
+                if not add <= self.trans[cn]:
+                    self.trans[cn] |= add
+                    changed = True
         # 2. emit
         self.used_effects = set()
         self.recursive = set()
